@@ -7,6 +7,7 @@ package main
 
 import (
 	"bufio"
+	"context"
 	"encoding/json"
 	"flag"
 	"fmt"
@@ -348,11 +349,19 @@ func fuzzStage(r *verdict.Run, dir string) {
 		args = append(args, "-modfile="+mf)
 	}
 	args = append(args, "-run", "^$", "-fuzz=FuzzToType", "-fuzztime="+execs, "./fuzz/")
-	cmd := exec.Command("go", args...)
+	// a generous bound on the whole stage: a decoder that hangs on some input
+	// stalls the fuzzing engine's worker; the engine reports that itself after
+	// a while, and if it does not the stage is inconclusive, not endless
+	fctx, cancel := context.WithTimeout(context.Background(), 90*time.Minute)
+	defer cancel()
+	cmd := exec.CommandContext(fctx, "go", args...)
 	cmd.Dir = root
 	cmd.Env = append(os.Environ(), "VERIF_FUZZ_SEEDS="+seedDir, "GOFLAGS=-mod=mod", "GOPROXY=off", "GOSUMDB=off", "GOTOOLCHAIN=local")
 	out, err := cmd.CombinedOutput()
 	text := string(out)
+	if fctx.Err() != nil {
+		r.Inconclusive("the coverage-guided fuzzing stage did not finish within 90 minutes: " + lastLinesOf(text, 5))
+	}
 	r.Count("fuzz.seed_documents", n)
 	var lastExecs int
 	for _, l := range strings.Split(text, "\n") {
@@ -397,4 +406,12 @@ func lastN(s string, n int) string {
 		l = l[len(l)-n:]
 	}
 	return strings.Join(l, "\n")
+}
+
+func lastLinesOf(s string, n int) string {
+	l := strings.Split(strings.TrimSpace(s), "\n")
+	if len(l) > n {
+		l = l[len(l)-n:]
+	}
+	return strings.Join(l, " / ")
 }
